@@ -945,6 +945,17 @@ def oracle_C11(ctx, cases, answers):
             p_ = fields(a).get("p", a)
             if not p_.startswith("ERR:") or "InvalidQualifier" not in p_:
                 v.append((i, "%r repeats a qualifier key with two non-empty values and is not refused: %s" % (c["s"], p_[:100])))
+        elif c["req"].startswith("bsearch "):
+            # on a strictly ascending slice the search must answer the contract: Ok(index of the probe) / Err(insertion point)
+            t = c["req"].split(" ")
+            probe = unhx(t[1]).encode("utf-8")
+            keys = [] if t[2] == "~" else [unhx(x).encode("utf-8") for x in t[2].split(",")]
+            if all(x < y for x, y in zip(keys, keys[1:])):
+                import bisect
+                i_ = bisect.bisect_left(keys, probe)
+                want = ("ok:%d" if i_ < len(keys) and keys[i_] == probe else "err:%d") % i_
+                if a != want:
+                    v.append((i, "binary search of a strictly ascending slice of %d keys answers %s, the contract says %s" % (len(keys), a, want)))
         elif c["req"].startswith("qcmp "):
             f = fields(a)
             same = c.get("same")
